@@ -302,7 +302,7 @@ impl<C: CellType> CodeGen<C> {
                     }
                     let prev_exprs = self.exprs.len();
                     let num_outer = self.outer_accessed.len();
-                    if !fuse || !is_loop || !block.insts.is_empty() {
+                    if !fuse || !is_loop || !block.insts.is_empty() || block.shift == 0 {
                         if !at_least_once {
                             self.insts.push(Instr::Noop);
                         }
